@@ -1,5 +1,5 @@
 Require Extraction.
 Require Import ExtrOcamlBasic.
-From SCMO Require Import Lib.Val Model.C16.
-Definition run := run_C16.
+From SCMO Require Import Lib.Val Model.C16 Model.C16x.
+Definition run := run_C16x.
 Extraction "c16_model.ml" run.
